@@ -214,7 +214,9 @@ class RealFloat__round_at_stochastic(Contract):
     returns = 'RealFloat'
     properties = ['C17']
     split = ['rm']
-    options = {'call_counts': {'RealFloat._generate_randbits': 1}}
+    # path-queries that neither prove nor refute within budget (nonlinear: nested divisions by
+    # symbolic powers of two) fall back to a bounded check, exponents/widths <= 12, reported as bounded
+    options = {'call_counts': {'RealFloat._generate_randbits': 1}, 'bounded_fallback': 12, 'bounded_ms': 60000}
 
     def pre(self, p, n, emin, rm, num_randbits, rng, exact):
         return {
@@ -246,7 +248,89 @@ class RealFloat__round_at_stochastic(Contract):
             'Z3_c': implies(not grid, r._c == ite(away, hi[1], lo[1])),
             'Z3_inexact': implies(not grid, r._flags.inexact),
             'member_p': p is None or bl(r._c) <= p,
+            'member_n': r._exp > n or r._exp == self._exp,
+            'tiny_pre': r._flags.tiny_pre == tiny_pre_spec(self, emin),
+            'other_flags': not r._flags.invalid and not r._flags.divzero and not r._flags.overflow,
+            'fresh': not same_obj(r, self),
         }
 
     def raises(self, p, n, emin, rm, num_randbits, rng, exact):
+        return {}
+
+
+class RealFloat_round(Contract):
+    target = 'fpy2.number.number.reals:RealFloat.round'
+    params = {'self': 'RealFloat', 'max_p': 'int | None', 'min_n': 'int | None', 'rm': 'RoundingMode',
+              'num_randbits': 'int | None', 'rng': 'RNG | None', 'exact': 'bool'}
+    returns = 'RealFloat'
+    properties = ['C01', 'C17']
+
+    def pre(self, max_p, min_n, rm, num_randbits, rng, exact):
+        return {
+            'p_pos': max_p is None or max_p >= 1,
+            'k_nonneg': num_randbits is None or num_randbits >= 0,
+            'stochastic_not_exact': (num_randbits is not None and num_randbits == 0) or not exact,
+        }
+
+    def post(self, max_p, min_n, rm, num_randbits, rng, exact, result):
+        r = result
+        n = round_nstar(self, max_p, min_n)
+        det = num_randbits is not None and num_randbits == 0
+        R = rnd_at(self, max_p, n, rm)
+        emin = (max_p + min_n) if (max_p is not None and min_n is not None) else None
+        # stochastic part (C17)
+        sh = n + 1 - self._exp
+        k = (ite(sh >= 0, sh, 0)) if num_randbits is None else num_randbits
+        lo = rnd_at(self, max_p, n, RoundingMode.RTZ)
+        hi = rnd_at(self, max_p, n, RoundingMode.RAZ)
+        grid = on_grid(self, n)
+        away = (False if grid else sr_away(self, n, k, rm, ghost('draw', k)))
+        return {
+            'fresh': not same_obj(r, self),
+            'sign': r._s == self._s,
+            'wf': r._c >= 0,
+            # R1 membership
+            'member_n': min_n is None or r._exp > min_n,
+            'member_p': max_p is None or bl(r._c) <= max_p,
+            # deterministic: the correctly rounded value and truthful flags
+            'exp': implies(det, r._exp == R[0]),
+            'c': implies(det, r._c == R[1]),
+            'inexact': implies(det, r._flags.inexact == R[2]),
+            'carry': implies(det, r._flags.carry == R[3]),
+            'tiny_pre': implies(det, r._flags.tiny_pre == tiny_pre_spec(self, emin)),
+            'tiny_post': implies(det, r._flags.tiny_post == tiny_post_spec(self, n, emin, rm)),
+            'other_flags': not r._flags.invalid and not r._flags.divzero and not r._flags.overflow,
+            # stochastic: Z2 / Z3
+            'Z2_exp': implies(not det and grid, r._exp == lo[0]),
+            'Z2_c': implies(not det and grid, r._c == lo[1]),
+            'Z2_exact': implies(not det and grid, not r._flags.inexact),
+            'Z3_exp': implies(not det and not grid, r._exp == ite(away, hi[0], lo[0])),
+            'Z3_c': implies(not det and not grid, r._c == ite(away, hi[1], lo[1])),
+            'Z3_inexact': implies(not det and not grid, r._flags.inexact),
+        }
+
+    def raises(self, max_p, min_n, rm, num_randbits, rng, exact):
+        return {
+            'ValueError': (max_p is None and min_n is None)
+                          or (exact and (max_p is not None or min_n is not None)
+                              and rnd_at(self, max_p, round_nstar(self, max_p, min_n), rm)[2]),
+        }
+
+
+class RealFloat_compare(Contract):
+    target = 'fpy2.number.number.reals:RealFloat.compare'
+    params = {'self': 'RealFloat', 'other': 'RealFloat'}
+    returns = 'Ordering | None'
+    properties = ['C05', 'C17', 'C01']
+    note = 'contract for the RealFloat x RealFloat case; other operand types are covered by C05 contracts'
+
+    def post(self, other, result):
+        return {
+            'not_none': result is not None,
+            'less': ((result.name == 'LESS') == dy_lt(self, other)) if result is not None else True,
+            'equal': ((result.name == 'EQUAL') == dy_eqv(self, other)) if result is not None else True,
+            'greater': ((result.name == 'GREATER') == dy_lt(other, self)) if result is not None else True,
+        }
+
+    def raises(self, other):
         return {}
